@@ -228,6 +228,22 @@ func runConc(seed int64, be string, maxG, opsPer int) ([][]byte, map[string]int)
 			}
 		}
 	}
+	// a compound creation racing with a plain one: an import into a name that another goroutine creates and fills
+	if g.chance(0.2) && G >= 2 {
+		name := "imported"
+		// the exported source holds JSON-representable documents only (C19's domain)
+		do(0, E{"op": "CreateCollection", "c": "jsrc"})
+		do(0, E{"op": "Insert", "c": "jsrc", "docs": []interface{}{g.jsonDoc(AStr(g.ids[0])), g.jsonDoc(AStr(g.ids[1]))}})
+		do(0, E{"op": "Export", "c": "jsrc", "path": "conc.json"})
+		progs[0][0] = E{"op": "Import", "c": name, "path": "conc.json"}
+		progs[1][0] = E{"op": "CreateCollection", "c": name}
+		if len(progs[1]) > 1 {
+			progs[1][1] = E{"op": "CreateIndex", "c": name, "f": B("k")}
+		}
+		if G >= 3 {
+			progs[2][0] = E{"op": "CreateByQuery", "name": name, "c": "jsrc", "q": []interface{}{}}
+		}
+	}
 	// predicate-based writers whose predicates read what the other one writes (write-skew shape):
 	// "set x := b where x = a" against "set x := a where x = b"
 	if g.chance(0.35) {
